@@ -221,6 +221,71 @@ fn show_res<T: PurlShape + Clone, E: ErrName>(r: &Result<GenericPurl<T>, E>) -> 
     }
 }
 
+/// What a caller's closure or iterator may legitimately do while the library is calling it: use the library again
+/// (on other values).  Every callback the harness hands to the library does this; the answers must not change.
+fn reenter(k: &str, v: &str) {
+    let _ = Qualifiers::try_from_iter([(k, v), ("zz9", "1")]);
+    let mut q2 = Qualifiers::default();
+    let _ = q2.insert("a", v);
+    let _ = q2.insert(k, "x");
+    q2.retain(|_, x| !x.is_empty());
+    if let Ok(p) = GenericPurl::<String>::from_str("pkg:t/ns/n@1?b=2&checksum=sha1:00,md5:ff#s") {
+        let _ = p.to_string();
+        let _ = p.into_builder().with_qualifier(k, v).and_then(|b| b.build());
+    }
+    let _ = Checksum::try_from("SHA1:AB,md5:00").map(purl::SmallStringCompat::try_text);
+}
+
+/// a tree of values whose deserializer treats every typed request as a hint (`deserialize_any` decides)
+#[cfg(feature = "serde")]
+struct Hintless(serde_json::Value);
+
+#[cfg(feature = "serde")]
+impl<'de> serde::de::IntoDeserializer<'de, serde::de::value::Error> for Hintless {
+    type Deserializer = Self;
+    fn into_deserializer(self) -> Self {
+        self
+    }
+}
+
+#[cfg(feature = "serde")]
+impl<'de> serde::Deserializer<'de> for Hintless {
+    type Error = serde::de::value::Error;
+    fn deserialize_any<V: serde::de::Visitor<'de>>(self, v: V) -> Result<V::Value, Self::Error> {
+        use serde::de::value::{MapDeserializer, SeqDeserializer};
+        use serde_json::Value;
+        match self.0 {
+            Value::Null => v.visit_unit(),
+            Value::Bool(b) => v.visit_bool(b),
+            Value::Number(n) => {
+                if let Some(u) = n.as_u64() {
+                    v.visit_u64(u)
+                } else if let Some(i) = n.as_i64() {
+                    v.visit_i64(i)
+                } else {
+                    v.visit_f64(n.as_f64().unwrap_or(0.0))
+                }
+            },
+            Value::String(s) => v.visit_string(s),
+            Value::Array(a) => v.visit_seq(SeqDeserializer::new(a.into_iter().map(Hintless))),
+            Value::Object(m) => v.visit_map(MapDeserializer::new(m.into_iter().map(|(k, x)| (k, Hintless(x))))),
+        }
+    }
+    fn deserialize_option<V: serde::de::Visitor<'de>>(self, v: V) -> Result<V::Value, Self::Error> {
+        match self.0 {
+            serde_json::Value::Null => v.visit_none(),
+            _ => v.visit_some(self),
+        }
+    }
+    fn deserialize_newtype_struct<V: serde::de::Visitor<'de>>(self, _name: &'static str, v: V) -> Result<V::Value, Self::Error> {
+        v.visit_newtype_struct(self)
+    }
+    serde::forward_to_deserialize_any! {
+        bool i8 i16 i32 i64 i128 u8 u16 u32 u64 u128 f32 f64 char str string bytes byte_buf unit unit_struct seq tuple
+        tuple_struct map struct enum identifier ignored_any
+    }
+}
+
 fn hash_of<X: Hash>(x: &X) -> u64 {
     let mut s = DefaultHasher::new();
     x.hash(&mut s);
@@ -495,6 +560,7 @@ fn quals_step(q: &mut Qualifiers, a: &[&str]) -> Result<String, String> {
                             let mut called = false;
                             let r = h(entry.or_insert_with(|| {
                                 called = true;
+                                reenter(&k, &v);
                                 v.as_str()
                             }));
                             format!("{}{}{}", kind, r, if called { "c" } else { "" })
@@ -503,6 +569,7 @@ fn quals_step(q: &mut Qualifiers, a: &[&str]) -> Result<String, String> {
                             let mut called = false;
                             let e2 = entry.and_modify(|x| {
                                 called = true;
+                                reenter(&k, &v);
                                 *x = v.as_str().into();
                             });
                             let kind2 = match &e2 {
@@ -556,6 +623,7 @@ fn quals_step(q: &mut Qualifiers, a: &[&str]) -> Result<String, String> {
             let mut seen: Vec<String> = vec![];
             q.retain(|k, v| {
                 seen.push(k.to_string());
+                reenter(k.as_str(), v);
                 !v.is_empty()
             });
             if seen == before { ".".to_string() } else { ".!visits".to_string() }
@@ -576,6 +644,7 @@ fn quals_step(q: &mut Qualifiers, a: &[&str]) -> Result<String, String> {
             let mut seen: Vec<String> = vec![];
             q.retain_mut(|qk, v| {
                 seen.push(qk.to_string());
+                reenter(qk.as_str(), v.as_str());
                 v.push_str(&x);
                 qk.as_str().len() % 2 == 1
             });
@@ -782,7 +851,10 @@ fn quals_step(q: &mut Qualifiers, a: &[&str]) -> Result<String, String> {
                 items.push((unh(a[i])?, unh(a[i + 1])?));
                 i += 2;
             }
-            match Qualifiers::try_from_iter(items.iter().map(|(k, v)| (k.as_str(), v.as_str()))) {
+            match Qualifiers::try_from_iter(items.iter().map(|(k, v)| {
+                reenter(k, v);
+                (k.as_str(), v.as_str())
+            })) {
                 Ok(nq) => {
                     *q = nq;
                     "OK".to_string()
@@ -1790,6 +1862,12 @@ fn op_serde(rest: &[&str]) -> Result<String, String> {
                         "bool" => go::<$t, _>(BoolDeserializer::<VErr>::new(payload.is_empty())),
                         "unit" => go::<$t, _>(UnitDeserializer::<VErr>::new()),
                         "seq" => go::<$t, _>(SeqDeserializer::<_, VErr>::new(vec![payload.clone()].into_iter())),
+                        // a whole tree of values (given as JSON text) behind a deserializer that takes `deserialize_str`
+                        // as a hint only, as the self-describing binary formats do: sequences and maps reach the visitor
+                        "tree" => match serde_json::from_str::<serde_json::Value>(&payload) {
+                            Ok(v) => go::<$t, _>(Hintless(v)),
+                            Err(e) => return Err(format!("bad tree {}", e)),
+                        },
                         _ => return Err(format!("bad value kind {}", kind)),
                     }
                 };
